@@ -6,6 +6,7 @@ import (
 	"fmt"
 	"math/rand"
 	"sort"
+	"strings"
 	"sync"
 	"time"
 
@@ -362,18 +363,47 @@ func main() {
 	}
 	e2e := &cq.Set{Name: "c16e2e", Import: "IV.Check.C16Check", CaseType: "e2e_case", Checks: []string{"e2e_spec_failures"}}
 	fn := &cq.Set{Name: "c16fn", Import: "IV.Check.C16Check", CaseType: "fn_case", Checks: []string{"fn_mismatches"}}
+	conc := &cq.Set{Name: "c16conc", Import: "IV.Check.C16bCheck", CaseType: "conc_case", Checks: []string{"conc_spec_failures"}}
+	loss := &cq.Set{
+		Name: "c16loss", Import: "IV.Check.C16bCheck", CaseType: "loss_case",
+		Checks: []string{"loss_mismatches", "loss_spec_failures"},
+	}
+	extra := map[string]interface{}{}
 	if o.Replay != "" {
 		var probe map[string]interface{}
-		if cq.LoadReplay(o.Replay, &probe) == "c16e2e" {
+		switch set := cq.LoadReplay(o.Replay, &probe); {
+		case set == "c16e2e":
 			var c e2eCase
 			cq.LoadReplay(o.Replay, &c)
 			e2e.Cases = append(e2e.Cases, runE2E(c, &fails).toCase())
-		} else {
+		case set == "c16conc" || strings.HasPrefix(set, "impl-") && probe["Writers"] != nil:
+			var c concCase
+			if probe["Cfg"] != nil {
+				cq.LoadReplay(o.Replay, &c)
+			} else {
+				cq.LoadReplay(o.Replay, &c.Cfg)
+			}
+			// interleavings are not reproducible: repeat the scenario (same configuration, varied close delay) until it fails again
+			for k := 0; k < 60 && len(fails) == 0; k++ {
+				cfg := c.Cfg
+				if k > 0 {
+					cfg.Seed += int64(k)
+					cfg.CloseDelayUs = (c.Cfg.CloseDelayUs * (3 + k%5)) / 5
+				}
+				conc.Cases = append(conc.Cases, runConc(cfg, &fails).toCase())
+			}
+		case set == "c16loss":
+			var c lossCase
+			cq.LoadReplay(o.Replay, &c)
+			if rc, ok := runLoss(c); ok {
+				loss.Cases = append(loss.Cases, rc.toCase())
+			}
+		default:
 			var c decCase
 			cq.LoadReplay(o.Replay, &c)
 			dec.Cases = append(dec.Cases, runDec(c, &fails).toCase("replay"))
 		}
-		cq.Write(o, "replay", []*cq.Set{dec, e2e, fn}, nil, fails)
+		cq.Write(o, "replay", []*cq.Set{dec, e2e, fn, conc, loss}, nil, fails)
 
 		return
 	}
@@ -424,6 +454,21 @@ func main() {
 	for _, c := range res {
 		e2e.Cases = append(e2e.Cases, c.toCase())
 	}
+	// concurrent scenarios, one at a time (the goroutine census needs a quiet process)
+	nc := o.Scale(60, 1200)
+	for i := 0; i < nc; i++ {
+		conc.Cases = append(conc.Cases, runConc(genConc(r, i), &fails).toCase())
+	}
+	// structured loss updates (needs the hook method VerifLossStep; skipped when the tree does not have it)
+	nl := o.Scale(400, 8000)
+	hook := true
+	for i := 0; i < nl && hook; i++ {
+		var rc lossCase
+		if rc, hook = runLoss(genLoss(r)); hook {
+			loss.Cases = append(loss.Cases, rc.toCase())
+		}
+	}
+	extra["loss_hook_present"] = hook
 	// pure functions
 	vals := []int64{-9000000000000000000, -1, 0, 1, 5000, 100000, 50000000, 9000000000000000000}
 	for _, a := range vals {
@@ -447,6 +492,10 @@ func main() {
 	cq.Write(o, "dec: configurations (default, min above the loss floor, narrow, max above the loss ceiling, random) x 3..32 ops "+
 		"(delay statistics with usage/state incl. invalid states, loss updates 0..100% loss with re-armed timers, received-rate changes incl. overflowing values) "+
 		"driven through the real rateController/lossController/onDelayUpdate; non-trivial = at least one rate change published; "+
-		"e2e: real SendSideBWE fed with TWCC feedback built by the real recorder under 8 arrival patterns; fn: clampInt/transition tables",
-		[]*cq.Set{dec, e2e, fn}, nil, fails)
+		"e2e: real SendSideBWE fed with TWCC feedback built by the real recorder under 8 arrival patterns; fn: clampInt/transition tables; "+
+		"conc: 1..6 goroutines x 1..5 WriteRTCP calls with real TWCC feedback, 0..2 getter goroutines, 1..3 Close callers at a random point, "+
+		"then a further Close and two more WriteRTCP calls; call/return events stamped by one atomic counter and checked against what the LTS allows; "+
+		"non-trivial = feedback accepted before and refused after the Close within one scenario; "+
+		"loss: updateLossEstimate sequences (0..100% loss, thresholds, empty updates, timers armed / disarmed / as the code left them); non-trivial = a branch was taken",
+		[]*cq.Set{dec, e2e, fn, conc, loss}, extra, fails)
 }
